@@ -72,6 +72,9 @@ func (w *World) opTable() []opFn {
 			w.spawnGalaxy("resync", "resync", func() { syncOnlyTask(inst) })
 		}})
 	}
+	if p.Typo {
+		ops = append(ops, opFn{"reload-typo", 1, func() bool { return true }, w.opTypoConf})
+	}
 	if p.Crash {
 		ops = append(ops, opFn{"crash", 1, func() bool { return true }, w.opCrash})
 	}
@@ -562,6 +565,7 @@ func (w *World) opReload() {
 			}
 		}
 	}
+	w.typoActive = false
 	desc := w.topo.mutate(w.C, w.prof.Restore, hot)
 	w.publishConf(w.topo.Snapshot())
 	js := w.topo.JSON()
@@ -572,6 +576,63 @@ func (w *World) opReload() {
 	w.S.Stat("reload." + desc)
 	// C19: the real daemon reloads from exactly one goroutine (the periodic loop), a second concurrent reload would
 	// be an artefact of the harness
+	if w.C.Prob(2, 3) && !w.armed("C19") && !w.reloadInFlight() {
+		inst := w.inst
+		w.spawnGalaxy("reload", "reload", func() { reloadTask(inst) })
+	}
+}
+
+// opTypoConf publishes the current configuration with one mistyped range. galaxy-ipam has to refuse such a text as a
+// whole and keep the configuration in force (it is not a configuration version of the model); the next reload
+// operation publishes a valid text again.
+func (w *World) opTypoConf() {
+	var pools []map[string]interface{}
+	if err := json.Unmarshal([]byte(w.topo.JSON()), &pools); err != nil || len(pools) == 0 {
+		return
+	}
+	type site struct{ p, i int }
+	var sites []site
+	for pi, pm := range pools {
+		if ips, ok := pm["ips"].([]interface{}); ok {
+			for i := range ips {
+				sites = append(sites, site{pi, i})
+			}
+		}
+	}
+	if len(sites) == 0 {
+		return
+	}
+	st := sites[w.C.Choose(len(sites))]
+	ips := pools[st.p]["ips"].([]interface{})
+	str, _ := ips[st.i].(string)
+	first, last := str, str
+	if k := strings.Index(str, "~"); k >= 0 {
+		first, last = str[:k], str[k+1:]
+	}
+	var bad string
+	switch w.C.Choose(4) {
+	case 0:
+		bad = first + "~" // the end is missing
+	case 1:
+		bad = first + "-" + last // wrong separator
+	case 2:
+		bad = first[:strings.LastIndex(first, ".")] + ".300" // not an address
+	default:
+		if first != last {
+			bad = last + "~" + first // end before start
+		} else {
+			bad = first + "~" + first[:strings.LastIndex(first, ".")]
+		}
+	}
+	ips[st.i] = bad
+	b, _ := json.Marshal(pools)
+	js := string(b)
+	w.K.Patch(nil, "configmaps", "kube-system", "floatingip-config", func(m map[string]interface{}) {
+		m["data"] = map[string]interface{}{"floatingips": js}
+	})
+	w.typoActive = true
+	w.S.Logf("conf typo (%s for %s) -> %s", bad, str, js)
+	w.S.Stat("reload.typo")
 	if w.C.Prob(2, 3) && !w.armed("C19") && !w.reloadInFlight() {
 		inst := w.inst
 		w.spawnGalaxy("reload", "reload", func() { reloadTask(inst) })
